@@ -4,6 +4,8 @@ CONSTANTS
   QosOf <- Q_2211
   MaxFaults = 2
   SessionLoss = TRUE
+  ClearAfterRequeue = TRUE
+  KeepOldWaiter = FALSE
   LossyWrites = FALSE
 INVARIANT EmitScript
 VIEW NoHist
